@@ -1,0 +1,52 @@
+//go:build verif
+
+// Contracts for the gowp verifier (/verif): comment-only file, compiled only with -tags verif.
+package rfc8009
+
+//@ func crypto/rfc8009.EncryptData(key, data, e) (iv, ct, err)
+//@   pure
+//@   trusted_frame returned slices are not tracked as fresh; in-place append into spare capacity cannot be excluded
+//@   requires len(data) > 0
+//@   requires tagof(e) == typeid("crypto.Aes128CtsHmacSha256128") || tagof(e) == typeid("crypto.Aes256CtsHmacSha384192")
+//@   ensures err == nil <==> et_encok(tagof(e), len(key), len(data))
+//@   ensures err == nil ==> len(ct) == et_ctlen(tagof(e), len(data))
+//@ func crypto/rfc8009.DecryptData(key, data, e) (pt, err)
+//@   pure
+//@   trusted_frame returned slices are not tracked as fresh; in-place append into spare capacity cannot be excluded
+//@   requires tagof(e) == typeid("crypto.Aes128CtsHmacSha256128") || tagof(e) == typeid("crypto.Aes256CtsHmacSha384192")
+//@   ensures err == nil <==> et_decok(tagof(e), len(key), len(data))
+//@   ensures err == nil ==> len(pt) == len(data)
+//@   ensures err != nil ==> len(pt) == 0
+//@ func crypto/rfc8009.DecryptMessage(key, ciphertext, usage, e) (pt, err)
+//@   pure
+//@   trusted_frame returned slices are not tracked as fresh; in-place append into spare capacity cannot be excluded
+//@   ensures err != nil ==> len(pt) == 0
+//@ func crypto/rfc8009.EncryptMessage(key, message, usage, e) (iv, ct, err)
+//@   pure
+//@   trusted_frame returned slices are not tracked as fresh; in-place append into spare capacity cannot be excluded
+//@   requires tagof(e) == typeid("crypto.Aes128CtsHmacSha256128") || tagof(e) == typeid("crypto.Aes256CtsHmacSha384192")
+//@ func crypto/rfc8009.VerifyIntegrity(key, ct, usage, e) (ok)
+//@   pure
+//@   trusted_frame returned slices are not tracked as fresh; in-place append into spare capacity cannot be excluded
+//@ func crypto/rfc8009.KDF_HMAC_SHA2(protocolKey, label, context, kl, e) (r)
+//@   pure
+//@   trusted_frame returned slices are not tracked as fresh; in-place append into spare capacity cannot be excluded
+//@   requires kl >= 0 && kl / 8 <= hashsize(et_hashfn(tagof(e)))
+//@   ensures len(r) == kl / 8
+//@ func crypto/rfc8009.DeriveKey(protocolKey, label, e) (k)
+//@   pure
+//@   trusted_frame returned slices are not tracked as fresh; in-place append into spare capacity cannot be excluded
+//@   requires len(label) > 0
+//@   requires tagof(e) == typeid("crypto.Aes128CtsHmacSha256128") || tagof(e) == typeid("crypto.Aes256CtsHmacSha384192")
+//@ func crypto/rfc8009.DeriveRandom(protocolKey, usage, e) (r, err)
+//@   pure
+//@   trusted_frame returned slices are not tracked as fresh; in-place append into spare capacity cannot be excluded
+//@   requires et_known(tagof(e))
+//@ func crypto/rfc8009.StringToKey(secret, salt, s2kparams, e) (k, err)
+//@   pure
+//@   trusted_frame returned slices are not tracked as fresh; in-place append into spare capacity cannot be excluded
+//@   requires tagof(e) == typeid("crypto.Aes128CtsHmacSha256128") || tagof(e) == typeid("crypto.Aes256CtsHmacSha384192")
+//@ func crypto/rfc8009.StringToKeyIter(secret, salt, iterations, e) (k, err)
+//@   pure
+//@   trusted_frame returned slices are not tracked as fresh; in-place append into spare capacity cannot be excluded
+//@   requires tagof(e) == typeid("crypto.Aes128CtsHmacSha256128") || tagof(e) == typeid("crypto.Aes256CtsHmacSha384192")
